@@ -7,4 +7,6 @@ T6 == 1..6
 R1 == {1}
 R2 == {1, 2}
 Unbounded == -1
+\* self-test helper for the as-written variant: every violation involves a None (violated by the out-of-order completion case)
+ViolationsOnlyThroughNone == \A n \in BadSpanStart \cup BadSpanEnd \cup BadLeaf : ctx[n].s < 0 \/ ctx[n].e < 0
 ====
